@@ -96,7 +96,7 @@ pub fn run(ctx: &Ctx) -> Result<Evidence, String> {
     docs.extend(gen::curated_docs().into_iter().filter(|d| d.node_count() < 300));
     let mut cfg = gen::DocCfg::default();
     cfg.keys = ["a", "b", "0", "1", "a/b", "~", "x y", "'", "\\", ""].iter().map(|s| s.to_string()).collect();
-    for _ in 0..ctx.tier.pick(200, 4000) {
+    for _ in 0..ctx.tier.pick(200, 60000) {
         docs.push(gen::random_doc(&mut rng, &cfg));
     }
     let reps = replacement_values();
